@@ -512,7 +512,7 @@ fn offline(cfg: &ConcCfg, log: &[Ev], accepted: &[String], aborted: bool, viol: 
         match sinkside[i] {
             Ev::Exit { metric, out: Out::Err(kidx), tid } if cfg.handler => match sinkside.get(i + 1) {
                 Some(Ev::Handler { msg, kind, tid: ht, on_harness_thread: h_on_harness }) => {
-                    let ok = msg == &format!("scripted-error:{}", metric) && *kind == ERR_KINDS[*kidx as usize % ERR_KINDS.len()];
+                    let ok = msg == &expected_handler_msg(*kidx, metric) && *kind == ERR_KINDS[*kidx as usize % ERR_KINDS.len()];
                     if !ok {
                         viol.push(V { props: vec!["C16"], rule: "R8", class: "handler-wrong-error".into(), detail: format!("handler got {:?}/{} for the failure of {}", kind, msg, metric) });
                         return;
@@ -798,7 +798,7 @@ fn window_scenarios(rep: &mut Report, prop: &str, args: &Args, rounds: u64) {
                                     if hs.len() != 1 {
                                         report(rep, V { props: vec!["C16"], rule: "R8", class: if hs.is_empty() { "handler-not-called".into() } else { "handler-called-twice".into() }, detail: format!("{} handler calls between the failure of {} and the next delivery", hs.len(), metric) }, &log, name);
                                     } else if let Ev::Handler { msg, tid: ht, on_harness_thread, .. } = hs[0] {
-                                        if !msg.contains(metric.as_str()) {
+                                        if msg != &expected_handler_msg(match outcome_of(metric) { Out::Err(k) => k, _ => 0 }, metric) {
                                             report(rep, V { props: vec!["C16"], rule: "R8", class: "handler-wrong-error".into(), detail: format!("handler got {} for the failure of {}", msg, metric) }, &log, name);
                                         }
                                         if ht != tid || *on_harness_thread {
